@@ -80,8 +80,8 @@ def gen_table(rng, idx):
              (8, 0, rng.choice((1, 2, 7))), (9, 0, rng.choice((1, 3))), (10, 0, rng.choice((0, 2))), (11, 0, 2),
              (12, 0, 1), (13, 0, 1), (14, 0, 1), (18, 0, rng.choice((0, 1, 2)))]
     cls = ("table", "full", "table", "unordered", "sparse", "close", "silent", "error35", "silent-then-table",
-           "silent-then-table")[idx % 10]
-    if cls == "silent-then-table":
+           "silent-then-table", "table-then-silent", "table-then-silent")[idx % 12]
+    if cls in ("silent-then-table", "table-then-silent"):
         return cls, dense
     if cls == "table":
         return "table", dense
@@ -114,6 +114,17 @@ def run_versions(spec, res):
     for b in cl.brokers.values():
         b.api_versions = mode if mode in ("close", "silent", "error35") else "table"
     switch_t = None
+    if mode == "table-then-silent":
+        # discovery succeeds; later the brokers stop answering ApiVersions and one produce request goes unanswered
+        # (its retry must still be laid out for the version its messages were built for)
+        t_sw = rng.choice((1.0, 2.0))
+
+        def go_silent():
+            for b in cl.brokers.values():
+                b.api_versions = "silent"
+            cl.faults.add(dict(api="Produce", nth=[0], action=dict(kind="silent", apply=False)))
+        w.clock.labelled(t_sw, "fault.version_discovery_goes_silent", go_silent)
+        res.hit("discovery_lost_later_scenarios")
     if mode == "silent-then-table":
         # the broker is stalled at first (one version discovery gives up) and answers later ones: two overlapping
         # discoveries of the same client end differently
@@ -179,10 +190,13 @@ def run_versions(spec, res):
         if who_first != "consumer":
             w.clock.labelled(rng.choice((0.0, 0.3)) if switch_t is None else round(switch_t - rng.choice((0.2, 0.4, 0.7, 0.9)), 3),
                              "act.consume", start_consumers)
+        if mode == "table-then-silent":
+            for i in range(n, n + 3):
+                w.clock.labelled(t_sw + rng.choice((0.1, 0.5, 1.5)), "act.send", send, i)
         if switch_t is not None:
             for i in range(n, n + 3):
                 w.clock.labelled(switch_t + rng.choice((1.5, 3.0, 5.0)), "act.send", send, i)
-        w.run(until=w.clock.seconds() + (12.0 if switch_t is None else 20.0))
+        w.run(until=w.clock.seconds() + (12.0 if switch_t is None and mode != "table-then-silent" else 20.0))
         for c in consumers:
             try:
                 c.stop()
